@@ -95,9 +95,10 @@ func (h *c17Hist) globalBest() (map[string]*c17Route, map[bgp.Family][]c17Got, e
 }
 
 // wantFor: the acceptable versions of every route the neighbour must hold (the relation of the property).
-//   PE   : every best VPN route that is not its own;
-//   RTC  : ... and for which it has an accepted membership (any target of the route, or the default);
-//   CE   : per plain prefix, the best VPN routes (not its own) with a transitive RT in its VRF's import set.
+//
+//	PE   : every best VPN route that is not its own;
+//	RTC  : ... and for which it has an accepted membership (any target of the route, or the default);
+//	CE   : per plain prefix, the best VPN routes (not its own) with a transitive RT in its VRF's import set.
 func (h *c17Hist) wantFor(p *c17Peer, best map[string]*c17Route) map[simRouteKey][]*c17Route {
 	want := map[simRouteKey][]*c17Route{}
 	if p.role == c17CE {
@@ -145,8 +146,14 @@ func (h *c17Hist) endEvent() {
 	}
 	best, _, err := h.globalBest()
 	if err != nil {
+		h.bestTags = append(h.bestTags, nil)
 		return
 	}
+	bt := map[uint32]bool{}
+	for _, b := range best {
+		bt[b.tag] = true
+	}
+	h.bestTags = append(h.bestTags, bt)
 	for _, p := range h.peers {
 		if !p.up {
 			continue
@@ -155,7 +162,7 @@ func (h *c17Hist) endEvent() {
 		sn, gn := h.since[p.addr()], h.gone[p.addr()]
 		for k, rs := range cur {
 			if s, ok := sn[k]; !ok || s.sig != c17TagSig(rs) {
-				sn[k] = c17Since{i, c17TagSig(rs)}
+				sn[k] = c17Since{i, c17TagSig(rs), !ok}
 			}
 			delete(gn, k)
 		}
@@ -171,12 +178,16 @@ func (h *c17Hist) endEvent() {
 // whyGone: why the model stopped expecting k at p (classification of a later "stale" difference only).
 func (h *c17Hist) whyGone(p *c17Peer, k simRouteKey, best map[string]*c17Route) string {
 	if p.role == c17CE {
+		why := "no-best"
 		for _, b := range best {
-			if b.fam == bgp.RF_IPv4_VPN && b.plain == k.Prefix && b.src != p.addr() {
-				return "best-became-non-importable"
+			if b.fam == bgp.RF_IPv4_VPN && b.plain == k.Prefix {
+				if b.src != p.addr() {
+					return "best-became-non-importable"
+				}
+				why = "best-became-own-route"
 			}
 		}
-		return "no-best"
+		return why
 	}
 	b := best[k.Family.String()+"/"+k.Prefix]
 	switch {
@@ -275,9 +286,10 @@ func (h *c17Hist) kindFor(p *c17Peer, i int) string {
 }
 
 // blame turns "p holds / lacks k" into a reason naming the event at which gobgp went wrong:
-//   stale     : sent-on-<e> if gobgp announced it when it was not due, else after-<e>: not withdrawn when <e> ended its eligibility
-//   missing   : withdrawn-on-<e> if gobgp withdrew it while due, else after-<e>: never sent since <e> made it due
-//   different : sent-on-<e> / after-<e> likewise for the version
+//
+//	stale     : sent-on-<e> if gobgp announced it when it was not due, else after-<e>: not withdrawn when <e> ended its eligibility
+//	missing   : withdrawn-on-<e> if gobgp withdrew it while due, else after-<e>: never sent since <e> made it due
+//	different : sent-on-<e> / after-<e> likewise for the version
 func (h *c17Hist) blame(p *c17Peer, k simRouteKey, class string) (string, int) {
 	idx, wd := h.lastMention(p, k)
 	msgEv := -1
@@ -291,7 +303,7 @@ func (h *c17Hist) blame1(p *c17Peer, k simRouteKey, class string, idx int, wd bo
 	switch class {
 	case "stale":
 		if g, ok := h.gone[p.addr()][k]; ok && (idx < 0 || msgEv <= g.ev) {
-			if g.why == "best-became-non-importable" {
+			if strings.HasPrefix(g.why, "best-became-") {
 				return g.why
 			}
 			return "after-" + h.kindFor(p, g.ev)
@@ -311,7 +323,9 @@ func (h *c17Hist) blame1(p *c17Peer, k simRouteKey, class string, idx int, wd bo
 		if !ok {
 			return "after-" + h.curKind
 		}
-		if idx >= 0 && !wd && msgEv >= s.ev {
+		if idx >= 0 && !wd && (msgEv >= s.ev || s.fresh) {
+			// announced at / after the event that fixed the expectation, or a copy announced while the route was
+			// not due at all (and which the later eligibility of a newer version did not replace)
 			return "sent-on-" + h.kindFor(p, msgEv)
 		}
 		return "after-" + h.kindFor(p, s.ev)
@@ -556,8 +570,11 @@ func (h *c17Hist) compare(at string) bool {
 			}
 			if len(diffs) > 0 {
 				sort.Strings(diffs)
-				after := h.lastKind(c17KeyScope(q.fam, scopeKey), "vrf:"+v.name)
-				h.violation("c17:vrf-table:"+cls+":after-"+after, fmt.Sprintf("ListPath(VRF %s, %s) (import %s) differs from the VPN routes with a transitive import RT: %s", v.name, q.ask, c17RTsString(v.imp), c17Abbrev(diffs)), at, map[string]any{"diff": diffs})
+				after := ":after-" + h.lastKind(c17KeyScope(q.fam, scopeKey), "vrf:"+v.name)
+				if strings.Contains(cls, "non-transitive") {
+					after = "" // a stateless view: the class says it all
+				}
+				h.violation("c17:vrf-table:"+cls+after, fmt.Sprintf("ListPath(VRF %s, %s) (import %s) differs from the VPN routes with a transitive import RT: %s", v.name, q.ask, c17RTsString(v.imp), c17Abbrev(diffs)), at, map[string]any{"diff": diffs})
 				ok = false
 			}
 		}
@@ -575,34 +592,24 @@ func (h *c17Hist) compare(at string) bool {
 	return ok
 }
 
-// apiTwin: an API route originated in a VRF whose AddPath NLRI text equals that of an API route originated in
-// another VRF (gobgp keys its send bookkeeping on the text the path was created with).
+// apiTwin: an API route originated in a VRF whose AddPath NLRI text was also used for an API route originated in
+// another VRF during this history (gobgp keys its send bookkeeping on the text the path was created with).
 func (h *c17Hist) apiTwin(w *c17Route) bool {
-	if w.src != c17Local || w.vrf == "" || w.rel == "" {
-		return false
-	}
-	for _, o := range h.m.routes {
-		if o != w && o.src == c17Local && o.vrf != "" && o.vrf != w.vrf && o.rel == w.rel {
-			return true
-		}
-	}
-	return false
+	return w.src == c17Local && w.vrf != "" && w.rel != "" && len(h.apiRel[w.rel]) > 1
 }
 
 // versionClass qualifies a version gobgp announced when it was not due: one that no source announced any more at
 // that time (ghost), or one that is in the Loc-RIB but not the best path of its destination.
 func (h *c17Hist) versionClass(tag uint32, sentEv int, best map[string]*c17Route) string {
-	pk, known := h.tagKey[tag]
+	_, known := h.tagKey[tag]
 	if !known {
 		return "ghost-version:"
 	}
 	if died, ok := h.tagDied[tag]; ok && died < sentEv {
 		return "ghost-version:"
 	}
-	if m := h.m.routes[pk]; m != nil && m.tag == tag {
-		if b := best[pk.fam.String()+"/"+pk.key]; b != nil && b != m {
-			return "non-best-path:"
-		}
+	if sentEv >= 0 && sentEv < len(h.bestTags) && h.bestTags[sentEv] != nil && !h.bestTags[sentEv][tag] {
+		return "non-best-path:" // in the Loc-RIB when it was announced, but not the path ranked first
 	}
 	return ""
 }
@@ -769,7 +776,7 @@ func (h *c17Hist) comparePeer(p *c17Peer, best map[string]*c17Route, at string) 
 			}
 			if twin {
 				bl = "vrf-api-route-same-nlri-in-two-vrfs"
-			} else if p.role == c17RTC && strings.HasPrefix(bl, "after-") && len(ws) == 1 && !h.vpnIndexHas(ws[0]) {
+			} else if p.role == c17RTC && strings.HasPrefix(bl, "after-membership-announce") && len(ws) == 1 && !h.vpnIndexHas(ws[0]) {
 				bl = "not-in-vpn-index:" + bl
 			}
 			diffs = append(diffs, fmt.Sprintf("MISSING %s %v [%s]", k, ws, bl))
@@ -829,7 +836,7 @@ func c17History(t *testing.T, rec *vlib.Rec, idx int) {
 	}()
 	h := &c17Hist{t: t, rec: rec, idx: idx, r: r, n: n, m: c17NewModel(), apiUUID: map[c17PathKey]uuid.UUID{}, apiVrf: map[c17PathKey]*apiutil.Path{},
 		events: map[string]int{}, last: map[string]c17Ev{}, keyRTs: map[string]map[string]bool{}, rxMark: map[string][]int{},
-		since: map[string]map[simRouteKey]c17Since{}, gone: map[string]map[simRouteKey]c17Gone{}, tagKey: map[uint32]c17PathKey{}, tagDied: map[uint32]int{}}
+		since: map[string]map[simRouteKey]c17Since{}, gone: map[string]map[simRouteKey]c17Gone{}, tagKey: map[uint32]c17PathKey{}, tagDied: map[uint32]int{}, apiRel: map[string]map[string]bool{}}
 	h.rtcPolicy = r.IntN(2) == 0
 	h.collide = r.IntN(6) == 0
 	h.genVrfs()
